@@ -42,7 +42,7 @@ type docCase struct {
 	Errs [][]string        `json:"errs"`
 }
 
-var docPaths = []string{"a", "b", "n.x", "n.y", "l.0", "l.1"}
+var docPaths = []string{"a", "b", "n.x", "n.xy", "l.0", "l.1"}
 
 // ---------------------------------------------------------------- concretisation
 
@@ -57,9 +57,9 @@ func jsonOfDoc(d map[string]string, style int) string {
 		if b != "" {
 			s += "\t\"b\":" + b + ",\n"
 		}
-		return s + "  \"n\": { \"x\": " + d["n.x"] + ",\n \"y\":" + d["n.y"] + " },\r\n  \"l\": [ " + d["l.0"] + " ,\n" + d["l.1"] + " ]\n}\n"
+		return s + "  \"n\": { \"x\": " + d["n.x"] + ",\n \"xy\":" + d["n.xy"] + " },\r\n  \"l\": [ " + d["l.0"] + " ,\n" + d["l.1"] + " ]\n}\n"
 	case 2: // member order
-		s := `{"l":[` + d["l.0"] + `,` + d["l.1"] + `],"n":{"y":` + d["n.y"] + `,"x":` + d["n.x"] + `},`
+		s := `{"l":[` + d["l.0"] + `,` + d["l.1"] + `],"n":{"xy":` + d["n.xy"] + `,"x":` + d["n.x"] + `},`
 		if b != "" {
 			s += `"b":` + b + `,`
 		}
@@ -69,7 +69,7 @@ func jsonOfDoc(d map[string]string, style int) string {
 	if b != "" {
 		s += `"b":` + b + `,`
 	}
-	return s + `"n":{"x":` + d["n.x"] + `,"y":` + d["n.y"] + `},"l":[` + d["l.0"] + `,` + d["l.1"] + `]}`
+	return s + `"n":{"x":` + d["n.x"] + `,"xy":` + d["n.xy"] + `},"l":[` + d["l.0"] + `,` + d["l.1"] + `]}`
 }
 
 func yamlScalar(tok string) string {
@@ -86,7 +86,7 @@ func yamlOfDoc(d map[string]string) string {
 	if d["b"] != "absent" {
 		s += "b: " + yamlScalar(d["b"]) + "\n"
 	}
-	s += "n:\n  x: " + yamlScalar(d["n.x"]) + "\n  y: " + yamlScalar(d["n.y"]) + "\n"
+	s += "n:\n  x: " + yamlScalar(d["n.x"]) + "\n  xy: " + yamlScalar(d["n.xy"]) + "\n"
 	s += "l:\n  - " + yamlScalar(d["l.0"]) + "\n  - " + yamlScalar(d["l.1"]) + "\n"
 	return s
 }
@@ -99,8 +99,33 @@ func yamlPath(p string) string {
 }
 
 func scriptMatchers(ms []absMatcher, yaml bool) []*Matcher {
+	return scriptMatchersM(ms, yaml, nil)
+}
+
+// scriptMatchersM: when `present` is given, two consecutive Any matchers with the same placeholder
+// whose paths both exist become ONE Any(p1, p2) call (equivalent for the model; exercises the
+// multi-path code of the real matcher).
+func scriptMatchersM(ms []absMatcher, yaml bool, present map[string]string) []*Matcher {
 	var out []*Matcher
-	for _, m := range ms {
+	for i := 0; i < len(ms); i++ {
+		m := ms[i]
+		if present != nil && i+1 < len(ms) && m.M == "any" && ms[i+1].M == "any" && m.PH == ms[i+1].PH && m.EOMP == ms[i+1].EOMP &&
+			m.P != ms[i+1].P && present[m.P] != "" && present[m.P] != "absent" && present[ms[i+1].P] != "" && present[ms[i+1].P] != "absent" {
+			p1, p2 := m.P, ms[i+1].P
+			if yaml {
+				p1, p2 = yamlPath(p1), yamlPath(p2)
+			}
+			out = append(out, &Matcher{M: "any", Paths: []string{p1, p2}, EOMP: bp(m.EOMP), HasPH: true, Placeholder: json.RawMessage(m.PH)})
+			i++
+			continue
+		}
+		out = append(out, scriptMatcher1(m, yaml))
+	}
+	return out
+}
+
+func scriptMatcher1(m absMatcher, yaml bool) *Matcher {
+	{
 		p := m.P
 		if yaml {
 			p = yamlPath(p)
@@ -121,9 +146,8 @@ func scriptMatchers(ms []absMatcher, yaml bool) []*Matcher {
 				sm.Err = "custom callback refused the value"
 			}
 		}
-		out = append(out, sm)
+		return sm
 	}
-	return out
 }
 
 func expectFails(c *docCase, yaml bool) [][2]string {
@@ -173,7 +197,7 @@ func absOfJSON(text string) (map[string]string, bool) {
 				return nil, false
 			}
 			for j, kk := range v.keys {
-				if v.elems[j].kind != 's' || (kk != `"x"` && kk != `"y"`) {
+				if v.elems[j].kind != 's' || (kk != `"x"` && kk != `"xy"`) {
 					return nil, false
 				}
 				out["n."+strings.Trim(kk, `"`)] = v.elems[j].raw
@@ -240,8 +264,10 @@ func absOfYAML(text string) (map[string]string, bool) {
 		case ind == 0 && (strings.HasPrefix(t, "a: ") || strings.HasPrefix(t, "b: ")):
 			out[t[:1]] = jsonTokOfYAML(t[3:])
 			sec = ""
-		case ind > 0 && sec == "n" && (strings.HasPrefix(t, "x: ") || strings.HasPrefix(t, "y: ")):
-			out["n."+t[:1]] = jsonTokOfYAML(t[3:])
+		case ind > 0 && sec == "n" && strings.HasPrefix(t, "x: "):
+			out["n.x"] = jsonTokOfYAML(t[3:])
+		case ind > 0 && sec == "n" && strings.HasPrefix(t, "xy: "):
+			out["n.xy"] = jsonTokOfYAML(t[4:])
 		case sec == "l" && strings.HasPrefix(t, "- "):
 			if li > 1 {
 				return nil, false
@@ -359,7 +385,7 @@ func checkC15(c *CheckCtx) error {
 			if j.yaml {
 				api = "yaml"
 			}
-			p.Steps = append(p.Steps, &Step{Op: "mdirect", Name: "TestA", API: api, Val: bytesVal(j.text), Matchers: scriptMatchers(j.dc.MS, j.yaml)})
+			p.Steps = append(p.Steps, &Step{Op: "mdirect", Name: "TestA", API: api, Val: bytesVal(j.text), Matchers: scriptMatchersM(j.dc.MS, j.yaml, j.dc.D)})
 		}
 		sc.Procs = append(sc.Procs, p)
 		scs = append(scs, sc)
@@ -493,10 +519,12 @@ func docStep(dc *docCase, api string, cfg string, form string, style int) *Step 
 		v = bytesVal(text)
 	case "gojson":
 		v = &Val{K: "gojson", B64: base64.StdEncoding.EncodeToString([]byte(text))}
+	case "rawmsg":
+		v = &Val{K: "rawmsg", B64: base64.StdEncoding.EncodeToString([]byte(text))}
 	default:
 		v = strVal(text)
 	}
-	st := &Step{Op: "match", Name: "TestA", API: api, Cfg: cfg, Val: v, Matchers: scriptMatchers(dc.MS, yaml)}
+	st := &Step{Op: "match", Name: "TestA", API: api, Cfg: cfg, Val: v, Matchers: scriptMatchersM(dc.MS, yaml, dc.D)}
 	x := &Expect{}
 	if len(dc.Errs) > 0 {
 		x.MFail = expectFails(dc, yaml)
@@ -522,7 +550,11 @@ func (c *CheckCtx) docsEntryPoints(cases []*docCase, prop string) error {
 		api := []string{"json", "sjson", "yaml"}[i%3]
 		sc := &Scenario{ID: fmt.Sprintf("ep%d", i), Configs: stdConfigs(), Program: []string{"TestA"}}
 		mode := []string{"default", "update", "ci"}[(i/3)%3]
-		steps := []*Step{{Op: "begin", Name: "TestA"}, docStep(dc, api, "c", "bytes", i%3), {Op: "match", Name: "TestA", API: "snapshot", Cfg: "c", Val: strVal("after")}, {Op: "end", Name: "TestA"}}
+		form := "bytes"
+		if api != "yaml" && i%4 == 3 {
+			form = "rawmsg"
+		}
+		steps := []*Step{{Op: "begin", Name: "TestA"}, docStep(dc, api, "c", form, i%3), docStep(&docCase{D: dc.D, Out: dc.D}, api, "c", "str", 0), {Op: "end", Name: "TestA"}}
 		sc.Procs = append(sc.Procs, &Proc{Spec: procSpec(mode), Steps: steps})
 		sc.Note = fmt.Sprintf("entry point %s mode=%s doc=%v matchers=%d failing=%d", api, mode, dc.D, len(dc.MS), len(dc.Errs))
 		scs = append(scs, sc)
@@ -553,7 +585,9 @@ func checkC17(c *CheckCtx) error {
 		sc := &Scenario{ID: fmt.Sprintf("mf%d", i), Configs: stdConfigs(), Program: []string{"TestA"}}
 		// record a first valid version (no matchers), then the failing call in the given mode
 		plain := &docCase{D: dc.D, Out: dc.D}
-		rec := []*Step{{Op: "begin", Name: "TestA"}, docStep(plain, api, "c", "str", 0), {Op: "match", Name: "TestA", API: "snapshot", Cfg: "c", Val: strVal("second call")}, {Op: "end", Name: "TestA"}}
+		second := &docCase{D: map[string]string{"a": `"second call"`, "b": "absent", "n.x": "1", "n.xy": `"s"`, "l.0": "1", "l.1": "true"}}
+		second.Out = second.D
+		rec := []*Step{{Op: "begin", Name: "TestA"}, docStep(plain, api, "c", "str", 0), docStep(second, api, "c", "str", 0), {Op: "end", Name: "TestA"}}
 		mode := []string{"default", "update", "ci", "clean"}[(i/3)%4]
 		if i%5 != 0 {
 			sc.Procs = append(sc.Procs, &Proc{Spec: procSpec("default"), Steps: rec})
@@ -563,9 +597,9 @@ func checkC17(c *CheckCtx) error {
 		for k, v := range dc.D {
 			changed.D[k] = v
 		}
-		changed.D["n.y"] = `"changed"`
+		changed.D["n.xy"] = `"changed"`
 		fail := []*Step{{Op: "begin", Name: "TestA"}, docStep(changed, api, "c", []string{"str", "bytes"}[i%2], i%3),
-			{Op: "match", Name: "TestA", API: "snapshot", Cfg: "c", Val: strVal("second call")}, {Op: "end", Name: "TestA"}}
+			docStep(second, api, "c", "str", 0), {Op: "end", Name: "TestA"}}
 		sc.Procs = append(sc.Procs, &Proc{Spec: procSpec(mode), Steps: fail})
 		sc.Note = fmt.Sprintf("failing matchers %v via %s in mode %s", dc.Errs, api, mode)
 		scs = append(scs, sc)
